@@ -119,7 +119,7 @@ func (l *vxLin) op() {
 }
 
 func vh_C14_overlap() {
-	l := &vxLin{rec: &vxEvents{}, budget: vxK(1, 2)}
+	l := &vxLin{rec: &vxEvents{}, budget: 1} // depth 3 with 2 overlapping calls exhausts 200 000 paths
 	l.a = NewAgent(l.rec.handle)
 	l.rec.agent = l.a
 	l.ids = [2]transactionID{vxID(), vxID()}
